@@ -1,5 +1,6 @@
 (* C02  Every call terminates; no wakeup is lost.  Statements only (proofs: ClientWakeProofs.v,
-   ClientProofsG1Fuel.v).
+   ClientWakeSettles.v, ClientWakeMon.v, ClientProofsG1Fuel.v; server side: ServerWakeSettles.v,
+   ServerWakeMon*.v).
 
    What is proved is about the executable model driven to quiescence (ClientWake.settle polls
    the dispatch and every live call future round after round until a round changes nothing).
